@@ -30,7 +30,9 @@ RULE = ("(history) Hypothesis draws a pool of operators (positive-definite / inv
         "(exhaustive) every sequence of <= 2 (quick) / <= 3 (thorough) steps from the alphabet over a fixed pool. (orders) "
         "fresh interpreters that first instantiate kinds in a generated order with variant payload types, then run the flatten "
         "suite: the verdict must not depend on the order. Non-trivial: a history with >= 2 distinct step kinds touching the "
-        "same object; a flatten case with >= 2 leaves; an order different from the default.")
+        "same object; a flatten case with >= 2 leaves; an order different from the default."
+        " Further: steps inv_left (X @ inv(A) on caller-owned C-ordered arrays), inv_T, rmatmat, to_dtype; the dense"
+        " form of every pool operator keeps its dtype.")
 ASSUMPTIONS = [
     "exceptions raised by a step are not judged here (other properties do); only mutation, repeatability and the flatten contract are",
     ".to(device) is exercised with the only NumPy device (None); .to(dtype=...) is documented as unsupported and outside the alphabet",
